@@ -592,6 +592,15 @@ int main(int argc, char** argv) {
         const WS ws[12] = {{0, 1}, {1, 2}, {1, 3}, {-1, 4}, {2, 5}, {1, 7}, {3, 8}, {-5, 16}, {1, 64}, {7, 100}, {1, 1000}, {1, 0}};
         const double mags[3] = {0.5, 1.0, 2.0};
         const long double angs[4] = {0.0L, 0.7L, PI_L, -2.1L};
+        // a: 3 moduli x 4 angles (the angle pi gives im = -5e-20*|a|, not 0), plus bases on the axes with the other
+        // component exactly zero: negative / positive real a (im == 0) and purely imaginary a (re == 0)
+        std::vector<cmplx_t> alist;
+        for (int ia = 0; ia < 12; ++ia) alist.push_back(cmplx_t((double)(mags[ia / 4] * cosl(angs[ia % 4])), (double)(mags[ia / 4] * sinl(angs[ia % 4]))));
+        for (double v : {-1.0, -0.5, -2.0, -1.25, 0.5, 2.0, 1.25}) alist.push_back(cmplx_t(v, 0.0));
+        for (double v : {1.0, 0.5, 2.0}) {
+            alist.push_back(cmplx_t(0.0, v));
+            alist.push_back(cmplx_t(0.0, -v));
+        }
         for (int n = 1; n <= NCZT; ++n) {
             for (int m = 1; m <= 2 * n; ++m) {
                 for (int iw = 0; iw < 12; ++iw) {
@@ -609,13 +618,15 @@ int main(int argc, char** argv) {
                         while (n2 < m + n - 1) n2 *= 2;
                         const ld Lc = (ld)n2 + (ld)std::max(m, n) * std::max(m, n);
                         ctx.note(fmt("czt conv size %d", n2));
-                        for (int ia = 0; ia < 12; ++ia) {
-                            const ld mag = mags[ia / 4], ang = angs[ia % 4];
-                            const cmplx_t a((double)(mag * cosl(ang)), (double)(mag * sinl(ang)));
+                        for (int ia = 0; ia < (int)alist.size(); ++ia) {
+                            const cmplx_t a = alist[(size_t)ia];
                             const ld amag = hypotl((ld)a.re, (ld)a.im), aarg = atan2l((ld)a.im, (ld)a.re);
                             std::vector<cld> ainv((size_t)n);
                             for (int j = 0; j < n; ++j) ainv[(size_t)j] = powl(amag, -(ld)j) * cis(-aarg * (ld)j);
                             if (a.re == 1 && a.im == 0) ctx.note("czt a == 1 (no pre-scaling path)");
+                            if (a.im == 0 && a.re < 0) ctx.note("czt a negative real (im exactly 0)");
+                            if (a.im == 0 && a.re > 0 && a.re != 1) ctx.note("czt a positive real != 1 (im exactly 0)");
+                            if (a.re == 0) ctx.note("czt a purely imaginary (re exactly 0)");
                             CztPlan plan(n, m, w, a);
                             if (plan.size() != n) ctx.fail("CztPlan::size()", fmt("%d", plan.size()), fmt("%d", n));
                             for (int l = 0; l < 3; ++l) {
